@@ -42,6 +42,6 @@ def _(self, a, pos):
 def _(self):
     returns("Optional[str]")
     # the (unique by construction) configuration of kind DELETION, None if there is none
-    ensures((result is None) == (not any(self.cn_configs[c].kind == 3 for c in self.cn_configs)))
-    ensures(implies(result is not None, result in self.cn_configs and self.cn_configs[result].kind == 3))
+    ensures((result is None) == (not any(self.cn_configs[c].kind == CNConfigType.DELETION for c in self.cn_configs)))
+    ensures(implies(result is not None, result in self.cn_configs and self.cn_configs[result].kind == CNConfigType.DELETION))
     modifies()
